@@ -366,7 +366,7 @@ def make_judge(chk: Check):
                 else:
                     if len(locs) > 1:
                         viols.append(Viol("doc-line-duplicated", where, {"element": path, "line": want, "found_on": locs}))
-                chk.case_ok(f"{where}")
+                chk.case_ok(f"{where}", ident=(case.cid, tokn))
 
             for path, g in gt.items():
                 if g["kind"] == "attribute":
